@@ -183,6 +183,21 @@ func skInvoice(o skOpts) *Invoice {
 				Terms: &pay.Terms{DueDates: []*pay.DueDate{{Date: &d, Percent: &q}}}}
 		}
 	}
+	// a rounding adjustment supplied with the document (kept by the calculation, added to the payable amount): in the
+	// quick tier one more alternative next to the fixed advance (where payable and due differ), in the thorough tier an
+	// independent choice
+	if o.rich {
+		withRounding := false
+		if vrt.Thorough() {
+			withRounding = vrt.Choice("rounding", 2) == 1
+		} else if inv.Payment != nil && len(inv.Payment.Advances) == 1 && inv.Payment.Advances[0].Percent == nil {
+			withRounding = vrt.Choice("rounding", 2) == 1
+		}
+		if withRounding {
+			r := skAmt("rounding", curExp)
+			inv.Totals = &Totals{Rounding: &r}
+		}
+	}
 	return inv
 }
 
